@@ -133,6 +133,13 @@ def gen_pipeline_case(rng, i, c03_bias=False):
         if normalization == 'raw' else 'dense',
         'flatten': False, 'drop_level': None,
     }
+    opts['bootstrap_factor_lookup'] = None
+    if len(h) >= 2 and rng.random() < 0.4:
+        # a different factor per parent level
+        opts['bootstrap_factor_lookup'] = [
+            [lv, rng.choice([1.0, 0.5, rng.uniform(0.3, 1.0)])]
+            for lv in ['None'] + h[:-1]]
+        label.append('factor-per-level')
     if len(h) >= 2:
         u = rng.random()
         if u < (0.3 if c03_bias else 0.15):
@@ -171,7 +178,8 @@ def config_for(case, stats, q, m, d):
         chunk_size=o['chunk_size'], bootstrap_factor=o['bootstrap_factor'],
         bootstrap_iteration=o['bootstrap_iteration'], rng_seed=o['rng_seed'],
         n_runners_up=o['n_runners_up'], normalization=o['normalization'],
-        flatten=o['flatten'], drop_level=o['drop_level'])
+        flatten=o['flatten'], drop_level=o['drop_level'],
+        bootstrap_factor_lookup=o.get('bootstrap_factor_lookup'))
 
 
 # ---------------------------------------------------------------------------
@@ -327,6 +335,9 @@ def analyse_run(ctx, sig, case, res, inputs, opts, do_votes=True,
                 return True
             subsets = nd['subsets']
             factor = opts['bootstrap_factor']
+            if opts.get('bootstrap_factor_lookup'):
+                factor = dict((k, v) for k, v in
+                              opts['bootstrap_factor_lookup'])[str(pl)]
             size = eu.expected_subset_size(factor, n_markers)
             if len(subsets) != iters or any(
                     k != n_markers for k in nd['n_markers_seen']):
